@@ -563,10 +563,13 @@ fn rand_record(rng: &mut Rng, idx: usize, refs: &[RefDesc], rgs: &[String], o: &
         // CRAM has no mapping quality for unmapped reads (the MQ series exists for mapped reads only):
         // in the common model an unmapped read carries none
         mapq = None;
-        if o.placed_unmapped && !refs.is_empty() && rng.chance(1, 3) {
-            let r = rng.usize_below(refs.len());
+        let r = if refs.is_empty() { 0 } else { rng.usize_below(refs.len()) };
+        // placed unmapped read (at its mate's position); it stays inside the reference: a read hanging
+        // over the reference end makes the CRAM writer panic (witness class
+        // `witness-placed-unmapped-read-overhanging-reference-end`)
+        if o.placed_unmapped && !refs.is_empty() && n <= refs[r].seq.len() && rng.chance(1, 3) {
             rid = Some(r);
-            pos = Some(rng.urange(1, refs[r].seq.len()));
+            pos = Some(rng.urange(1, refs[r].seq.len() - n + 1));
         } else {
             rid = None;
             pos = None;
@@ -635,6 +638,7 @@ pub const DET_CLASSES: &[&str] = &[
     "multi-block",
     // minimal set for a shape the random part avoids (read names are generated as r<index>...)
     "witness-headerless-sam-qname-starts-with-CRAM",
+    "witness-placed-unmapped-read-overhanging-reference-end",
 ];
 
 pub const RANDOM_CLASSES: &[&str] = &["many-mixed", "multi-reference", "unmapped-only", "one-mapped", "few-long", "header-only", "multi-block"];
@@ -701,6 +705,16 @@ pub fn make_set(class: &str, seed: u64) -> ASet {
             let mut r = rand_record(rng, 0, &[], &[], &GenOpts { mapped: false, unmapped: true, placed_unmapped: false, max_read: 30, aux: false });
             r.name = "CRAM0".into();
             (String::new(), Vec::new(), vec![r])
+        }
+        // flag 4 with RNAME/POS of the mate, 30 bases starting 10 bases before the end of a 100-base reference
+        "witness-placed-unmapped-read-overhanging-reference-end" => {
+            let refs = make_refs(rng, 1, 100, 100);
+            let mut r = rand_record(rng, 0, &[], &[], &GenOpts { mapped: false, unmapped: true, placed_unmapped: false, max_read: 30, aux: false });
+            r.seq = (0..30).map(|_| rand_base(rng)).collect();
+            r.qual = vec![30; 30];
+            r.rid = Some(0);
+            r.pos = Some(91);
+            (header_text(&refs, Some("@HD\tVN:1.6"), &[], false), refs, vec![r])
         }
         c => panic!("unknown alignment set class {c}"),
     };
